@@ -159,6 +159,13 @@ void registerHeaders(std::map<std::string, Op>& ops)
                 else if (name == "Access-Control-Allow-Headers") h = std::make_shared<Header::AccessControlAllowHeaders>(v);
                 else if (name == "Access-Control-Expose-Headers") h = std::make_shared<Header::AccessControlExposeHeaders>(v);
                 else if (name == "Access-Control-Allow-Methods") h = std::make_shared<Header::AccessControlAllowMethods>(v);
+                else if (name == "Content-Type" && !v.empty() && v[0] == '@') {
+                    // built through the API (no raw text kept): type, subtype, suffix and quality of the parsed value, written by MediaType::toString
+                    Mime::MediaType p(v.substr(1), Mime::MediaType::DoParse);
+                    Mime::MediaType b(p.top(), p.sub(), p.suffix());
+                    if (p.q()) b.setQuality(*p.q());
+                    h = std::make_shared<Header::ContentType>(b);
+                }
                 else if (name == "Content-Type") h = std::make_shared<Header::ContentType>(Mime::MediaType(v, Mime::MediaType::DoParse));
                 else return "bad-op";
             }
